@@ -319,6 +319,57 @@ def run(ctx: Context, rep) -> None:
            "list")
 
     check_dump(ctx, rep, "C04.dump")
+    check_fresh_records(ctx, rep, "C04.fresh")
+
+
+def check_fresh_records(ctx: Context, rep, rule: str) -> None:
+    """Every child record (re-)attached to a list by merge_shard_infos is
+    the value returned by that child's own merge in this call."""
+    rep.rule(
+        rule,
+        "in merge_shard_infos every record appended to "
+        "children_shard_lists derives only from the return value of the "
+        "recursive merge of that directory (whose write_config just rewrote "
+        "and re-hashed the child list); a record read from the old parent "
+        "list is never re-attached as is - a deeper update would leave its "
+        "digest and totals stale")
+    from sa.cfg import CFG
+    from sa.dataflow import TagFlow
+    mg = ctx.fn("sedpack.io.merge_shard_infos:merge_shard_infos")
+    cfg = ctx.cfg(mg)
+
+    def hook(e, state, rec):
+        if isinstance(e, ast.Call) and ctx.is_call(
+                mg, e, "merge_shard_infos.merge_shard_infos"):
+            return frozenset({"fresh"})
+        if isinstance(e, ast.Attribute) and e.attr == "children_shard_lists":
+            return frozenset({"stale"})
+        if isinstance(e, ast.Name) and e.id == "updates":
+            return frozenset({"update"})
+        return None
+
+    tf = TagFlow(cfg, {}, hook=hook)
+    apps = [n for n in cfg.calls() if isinstance(n.ast.func, ast.Attribute) and
+            n.ast.func.attr in ("append", "extend", "insert") and
+            ast.unparse(n.ast.func.value).endswith("children_shard_lists")]
+    if not apps:
+        raise AnalysisError(f"{rule}: children are never re-attached")
+    for n in apps:
+        tags = tf.tags_at(n, n.ast.args[-1])
+        rep.ob(rule, "fresh" in tags and "stale" not in tags and
+               "update" not in tags, loc=mg.loc(n.ast), where=mg.qualname,
+               construct=f"{short(n.ast)} carries {sorted(tags)}",
+               message="re-attached child records must be fresh merge "
+               "results")
+    ret = [n for n in cfg.nodes if n.kind == "stmt" and isinstance(
+        n.ast, ast.Return)]
+    for r in ret:
+        ok = isinstance(r.ast.value, ast.Call) and ctx.is_call(
+            mg, r.ast.value, "ShardsList.write_config")
+        rep.ob(rule, ok, loc=mg.loc(r.ast), where=mg.qualname,
+               construct=short(r.ast, 70),
+               message="the merge returns the record of the list it just "
+               "wrote")
 
 
 def check_dump(ctx: Context, rep, rule: str) -> None:
@@ -450,6 +501,9 @@ SELFTESTS = [
     dict(rule="C04.delta", name="close-shard-recompute", expect="fire", path=_DF,
          old="        self._shards_lists[\n            split].number_of_examples += shard_info.number_of_examples\n",
          new="        self._shards_lists[split].number_of_examples = sum(\n            s.number_of_examples for s in self._shards_lists[split].shard_files)\n"),
+    dict(rule="C04.fresh", name="keep-unchanged-children", expect="fire", path=_MG,
+         old="    # Merge the recursive into root_shard_list.\n    for child in merged.values():",
+         new="    # Merge the recursive into root_shard_list.\n    unchanged = {str(c.shard_list_info_file.file_path): c for c in deeper_updates if c not in updates}\n    for child in {**merged, **unchanged}.values():"),
     dict(rule="C04.count", name="own-shards-only", expect="fire", path=_SM,
          old="        number_of_shards: int = len(self.shard_files) + sum(\n            info.number_of_shards for info in self.children_shard_lists)\n",
          new="        number_of_shards: int = len(self.shard_files)\n"),
